@@ -10,14 +10,14 @@ type BlockIn struct {
 	PC         uint16
 	A, F       uint8
 	BC, DE, HL uint16
-	Mem        *[65536]uint8              // modified in place
-	PortIn     func(port uint8) uint8     // next byte of the input stream
-	PortOut    func(port uint8, v uint8)  // records an output
-	MaxElems   int                        // stop early (0 = run to completion)
+	Mem        *[65536]uint8             // modified in place
+	PortIn     func(port uint8) uint8    // next byte of the input stream
+	PortOut    func(port uint8, v uint8) // records an output
+	MaxElems   int                       // stop early (0 = run to completion)
 	// Len > 0: the memory is shorter than its address range (the library's DumbMemory): addresses
 	// >= Len read as 0 and ignore writes
-	Len int
-	OnElem     func(i int, r, w int32)    // optional: element i read address r / wrote address w (-1: none)
+	Len    int
+	OnElem func(i int, r, w int32) // optional: element i read address r / wrote address w (-1: none)
 }
 
 // BlockOut is the specified outcome.
